@@ -370,6 +370,18 @@ def comprehension(I, node, env, kind):
         return VList(out) if kind == 'list' else VSet(out)
     snap = env.snapshot()
     cache_e, cache_p = {}, {}
+    if kind == 'set':
+        if gen.ifs or src.pred is not None:
+            raise Unsupported('filtered set comprehension over a symbolic sequence')
+        probe = fresh_int('sp')
+        e2 = Env(snap.globs, snap, snap.qual)
+        I.assign(gen.target, src.elem(probe), e2)
+        v = eval_merged(I, lambda: I.eval(node.elt, e2))
+        if isinstance(v, VKind) and I.concrete_kind(v) is not None:
+            o = VObj(object, tag='kindset')
+            o.fields = {'kind': v, 'nonempty': src.length > 0}
+            return o
+        raise Unsupported('set comprehension over a symbolic sequence')
 
     def bind(i):
         e2 = Env(snap.globs, snap, snap.qual)
@@ -433,6 +445,36 @@ def seq_class(I, s):
     known.append((s, cid))
     s.cls_id = cid
     return cid
+
+
+count_f = z3.Function('count_f', z3.IntSort(), z3.IntSort())
+
+
+def filtered_length(I, s):
+    """Length of a filtered sequence: count_f(class of its predicate); sequences whose
+    predicates are provably equivalent (generic element) share the term."""
+    ctx = I.ex.ctx
+    known = getattr(ctx, 'pred_classes', None)
+    if known is None:
+        known = ctx.pred_classes = []
+    i = fresh_int('pc')
+    for other, cid in known:
+        goal = z3.And(s.src_len == other.src_len,
+                      z3.Implies(z3.And(i >= 0, i < s.src_len), s.pred(i) == other.pred(i)))
+        sol = z3.Solver()
+        sol.set('timeout', 2000)
+        sol.add(*ctx.pc)
+        sol.add(z3.Not(goal))
+        if sol.check() == z3.unsat:
+            return count_f(z3.IntVal(cid))
+    cid = len(known) + 1 + 1000 * len(I.ex.stack)
+    known.append((s, cid))
+    t = count_f(z3.IntVal(cid))
+    ctx.add(z3.And(t >= 0, t <= s.src_len))
+    # one instance of "count > 0 => some kept element": enough for emptiness tests
+    w = fresh_int('w')
+    ctx.add(z3.Implies(t > 0, z3.And(w >= 0, w < s.src_len, s.pred(w))))
+    return t
 
 
 def reduction(I, name, s):
@@ -597,6 +639,8 @@ def construct(I, cls, args, kwargs):
         if not isinstance(kind, VKind):
             raise Unsupported(f'DataType kind {kind!r}')
         return VDType(kind.t, truthy(nullable) if not isinstance(nullable, VBool) else nullable.t)
+    if c in (range, zip, enumerate, reversed):
+        return BUILTINS[c.__name__](I, None, args, kwargs)
     if c is type and len(args) == 1:
         return b_type(I, None, args, kwargs)
     if c is slice:
@@ -908,9 +952,12 @@ def b_id(I, f, args, kw):
     if isinstance(x, VObj):
         return VInt(z3.IntVal(10_000_000 + x.oid))
     idf = getattr(x, 'ident', None)
-    if idf is not None:
+    if idf is not None and not isinstance(idf, str):
         return VInt(idf)
-    raise Unsupported(f'id({x!r})')
+    # identity of a non-object value: some address that is not the address of a modelled object
+    t = z3.Int(fresh_name('id'))
+    I.ex.ctx.add(t < 0)
+    return VInt(t)
 
 
 def b_hash(I, f, args, kw):
